@@ -34,7 +34,9 @@ func (eng) Rule() string {
 		"back/<backend> (bbolt, badger, sqlite against the same reference, after Sync and a settled record count), " +
 		"resume (stop and reopen a persistent history), crash (a child process tracking into a persistent store is killed " +
 		"with SIGKILL at a PRNG-chosen paced Sync report, the store is reopened and compared with the reference), " +
-		"eximport (Machine.Export / Import). An evaluation is one " +
+		"eximport (Machine.Export / Import). Queries: every state condition and, with both ends taken from two records, a range " +
+		"on HTime, MTimeSum, one of MTimeTrackedSum / MTimeDiff / MTimeTrackedDiff / MTimeRecordDiff / MachTick, and the tick of one " +
+		"tracked state (MTimeStates); the ends themselves are not judged. An evaluation is one " +
 		"record or one query answer judged; a distinct item is a distinct (config class, query class, backend)."
 }
 func (eng) Assumptions() []string {
@@ -634,6 +636,59 @@ func judgeQueries(res *core.CaseResult, w *world, backend string, mem amhist.Mem
 					return 1
 				}})
 		}
+		// the other scalar ranges: both ends from records, ends themselves not judged
+		type dim struct {
+			name string
+			get  func(t amhist.TimeRecord) uint64
+			mk   func(lo, hi uint64) amhist.Query
+		}
+		dims := []dim{
+			{"MTimeTrackedSum", func(t amhist.TimeRecord) uint64 { return t.MTimeTrackedSum }, func(lo, hi uint64) amhist.Query {
+				return amhist.Query{Start: amhist.ConditionTime{MTimeTrackedSum: lo}, End: amhist.ConditionTime{MTimeTrackedSum: hi}}
+			}},
+			{"MTimeDiff", func(t amhist.TimeRecord) uint64 { return t.MTimeDiffSum }, func(lo, hi uint64) amhist.Query {
+				return amhist.Query{Start: amhist.ConditionTime{MTimeDiff: lo}, End: amhist.ConditionTime{MTimeDiff: hi}}
+			}},
+			{"MTimeTrackedDiff", func(t amhist.TimeRecord) uint64 { return t.MTimeTrackedDiffSum }, func(lo, hi uint64) amhist.Query {
+				return amhist.Query{Start: amhist.ConditionTime{MTimeTrackedDiff: lo}, End: amhist.ConditionTime{MTimeTrackedDiff: hi}}
+			}},
+			{"MTimeRecordDiff", func(t amhist.TimeRecord) uint64 { return t.MTimeRecordDiffSum }, func(lo, hi uint64) amhist.Query {
+				return amhist.Query{Start: amhist.ConditionTime{MTimeRecordDiff: lo}, End: amhist.ConditionTime{MTimeRecordDiff: hi}}
+			}},
+			{"MachTick", func(t amhist.TimeRecord) uint64 { return uint64(t.MachTick) }, func(lo, hi uint64) amhist.Query {
+				return amhist.Query{Start: amhist.ConditionTime{MachTick: uint32(lo)}, End: amhist.ConditionTime{MachTick: uint32(hi)}}
+			}},
+		}
+		d := dims[r.IntN(len(dims))]
+		dlo, dhi := d.get(*lo), d.get(*hi)
+		if dlo > dhi {
+			dlo, dhi = dhi, dlo
+		}
+		if dlo > 0 {
+			qs = append(qs, q{d.name, d.mk(dlo, dhi), func(i int) int {
+				v := d.get(*recs[i].Time)
+				if v == dlo || v == dhi {
+					return -1
+				}
+				return b2i(v > dlo && v < dhi)
+			}})
+		}
+		// the tick of one tracked state between two of its values
+		ti := slices.Index(tracked, s1)
+		if ti >= 0 && ti < len(lo.MTimeTracked) && ti < len(hi.MTimeTracked) {
+			tlo, thi := lo.MTimeTracked[ti], hi.MTimeTracked[ti]
+			if tlo > thi {
+				tlo, thi = thi, tlo
+			}
+			qs = append(qs, q{"MTimeStates", amhist.Query{Start: amhist.ConditionTime{MTimeStates: am.S{s1}, MTime: am.Time{tlo}},
+				End: amhist.ConditionTime{MTimeStates: am.S{s1}, MTime: am.Time{thi}}}, func(i int) int {
+				v := recs[i].Time.MTimeTracked[ti]
+				if v == tlo || v == thi {
+					return -1
+				}
+				return b2i(v > tlo && v < thi)
+			}})
+		}
 		if !lo.HTime.IsZero() && !hi.HTime.IsZero() {
 			qs = append(qs, q{"HTime", amhist.Query{Start: amhist.ConditionTime{HTime: lo.HTime}, End: amhist.ConditionTime{HTime: hi.HTime}},
 				func(i int) int {
@@ -663,9 +718,9 @@ func judgeQueries(res *core.CaseResult, w *world, backend string, mem amhist.Mem
 			isNext := oi < len(out) && sameRecord(out[oi], recs[i])
 			switch {
 			case m == 1 && !isNext:
-				bad = fmt.Sprintf("record #%d (oldest first; MTimeTracked=%v diff=%v) satisfies the query but is not returned at position %d", i, recs[i].Time.MTimeTracked, recs[i].Time.MTimeTrackedDiff, oi)
+				bad = fmt.Sprintf("record #%d (oldest first; MTimeTracked=%v diff=%v HTime=%s) satisfies the query but is not returned at position %d", i, recs[i].Time.MTimeTracked, recs[i].Time.MTimeTrackedDiff, recs[i].Time.HTime.Format(time.RFC3339Nano), oi)
 			case m == 0 && isNext:
-				bad = fmt.Sprintf("record #%d (oldest first; MTimeTracked=%v diff=%v) does not satisfy the query but is returned", i, recs[i].Time.MTimeTracked, recs[i].Time.MTimeTrackedDiff)
+				bad = fmt.Sprintf("record #%d (oldest first; MTimeTracked=%v diff=%v HTime=%s) does not satisfy the query but is returned", i, recs[i].Time.MTimeTracked, recs[i].Time.MTimeTrackedDiff, recs[i].Time.HTime.Format(time.RFC3339Nano))
 			}
 			if isNext {
 				oi++
@@ -678,6 +733,14 @@ func judgeQueries(res *core.CaseResult, w *world, backend string, mem amhist.Mem
 			kind := "wrong"
 			if w.reopenIdx > 0 && badIdx == w.reopenIdx {
 				kind = "wrong-first-after-reopen"
+			}
+			// sqlite keeps times as RFC3339Nano text with trailing zeros of the
+			// fraction trimmed and compares them as text
+			if qq.name == "HTime" && badIdx >= 0 && badIdx < len(recs) {
+				trimmed := func(t time.Time) bool { return t.Nanosecond()%10 == 0 }
+				if trimmed(recs[badIdx].Time.HTime) || trimmed(qq.query.Start.HTime) || trimmed(qq.query.End.HTime) {
+					kind = "wrong/text-compared-trimmed-fraction"
+				}
 			}
 			res.Violate("C17/"+backend+"/query/"+qq.name+"/"+kind, fmt.Sprintf("FindLatest(%s) tracked=%v: %s; returned %d of %d (%s)", queryStr(qq.query), tracked, bad, len(out), len(recs), ctxs), nil)
 			return
@@ -725,7 +788,7 @@ func queryStr(q amhist.Query) string {
 		p = append(p, fmt.Sprintf("MTimeSum=[%d,%d]", q.Start.MTimeSum, q.End.MTimeSum))
 	}
 	if !q.Start.HTime.IsZero() {
-		p = append(p, "HTime=[..]")
+		p = append(p, "HTime=["+q.Start.HTime.Format(time.RFC3339Nano)+" .. "+q.End.HTime.Format(time.RFC3339Nano)+"]")
 	}
 	return strings.Join(p, " ")
 }
